@@ -1621,7 +1621,18 @@ func (s *Server) sendLWT(cl *Client) {
 		return
 	}
 
-	modifiedLWT := s.hooks.OnWill(cl, cl.Properties.Will)
+	// The will is copied field by field: its flag is updated atomically by other goroutines (the
+	// delayed-will sweep clears it), so it must not be read as part of a plain struct copy.
+	will := Will{
+		Payload:           cl.Properties.Will.Payload,
+		User:              cl.Properties.Will.User,
+		TopicName:         cl.Properties.Will.TopicName,
+		Flag:              atomic.LoadUint32(&cl.Properties.Will.Flag),
+		WillDelayInterval: cl.Properties.Will.WillDelayInterval,
+		Qos:               cl.Properties.Will.Qos,
+		Retain:            cl.Properties.Will.Retain,
+	}
+	modifiedLWT := s.hooks.OnWill(cl, will)
 
 	// A will message is published on the client's behalf, so it is subject to the same
 	// restrictions as the client's own publishes: a valid topic name, not $SYS, write permission.
